@@ -1918,7 +1918,7 @@ class Recipe:
         """
         if self.locked:
             raise RuntimeError("This recipe is locked.")
-        if self.current_stage != name:
+        if self.current_stage == 'all' or self.current_stage != name:
             raise ValueError("Current stage does not match name.")
 
         self.stages[name] = slice(self.current_stage_start, len(self.steps))
